@@ -24,10 +24,11 @@ def main(run):
         from contracts import tokenizer
         r = tokenizer.fixpoint()
         run.under_contract(tokenizer.FILE, '_tokenize', r['text'])
-        if r['problems']:
-            # the abstraction's soundness argument does not cover this shape of the loop body: the fixpoint decides nothing (never a violation)
-            from vlib.env import Unanchored
-            raise Unanchored('tokenizer dependency check: ' + '; '.join(r['problems']))
+        sound = not r['problems']
+        if not sound:
+            # the abstraction's soundness argument does not cover this shape of the loop body: agreement proves nothing (reported UNANCHORED, the
+            # steps are counted as bounded cases); a witness string that makes the real _tokenize raise a non-ValueError stays a replayed violation
+            run.unanchored('C03/P:tokenizer-fixpoint', 'dependency check: ' + '; '.join(r['problems']))
         unsafe = {}
         for w, e, name in r['unsafe']:
             unsafe.setdefault(e, []).append(w)
@@ -35,12 +36,18 @@ def main(run):
         for e, ws in unsafe.items():
             w = min(ws, key=lambda x: (len(x), x))
             nat = tokenizer.replay(w)
+            if not sound and nat != e:
+                continue            # without the abstraction argument only a string that fails on the real function counts
             known[e] = run.violation(f'tokenize-fixpoint:{e}', f'_tokenize({w!r}) raises {e} (not a ValueError): reachable tokenizer state, {len(ws)} witness strings',
                                      witness={'string': w, 'more': sorted(ws, key=len)[:5]}, obligation=f'_tokenize raises only ValueError [{e}]', native=nat,
                                      found_input=(nat == e))
         bad = {name: e for w, e, name in r['unsafe']}
-        for name, ok in r['rows']:
-            run.oblig(name, ok, 'P', 'fixpoint', 0.0, known=(not ok and known.get(bad.get(name)) == 'known'))
+        if sound:
+            for name, ok in r['rows']:
+                run.oblig(name, ok, 'P', 'fixpoint', 0.0, known=(not ok and known.get(bad.get(name)) == 'known'))
+        else:
+            run.case(len(r['rows']))
+            run.bound('tokenizer steps without the abstraction argument: one representative per (reached abstract state, character class)')
         run.notes['tokenizer_fixpoint'] = {'abstract_states': r['states'], 'character_classes': len(tokenizer.CLASSES)}
     bounded_part(run, 'C03')
     run.assume('tokenizer abstraction: behaviour of the loop body depends only on token_type, the kind of `token`, the last two tokens and the class of the '
